@@ -64,8 +64,16 @@ def cmd_setup(args):
     return 0
 
 
+def _cleanroom():
+    import gemclus  # noqa: the clean room must hold the imported, never-used library
+    import gemsim.scenarios.c12  # noqa
+    from gemsim import cleanroom
+    cleanroom.install()
+
+
 def cmd_check(args):
     _assert_repo()
+    _cleanroom()
     from gemsim import runner
     tier = args.tier or os.environ.get("VERIF_TIER") or "quick"
     seed = args.seed if args.seed is not None else int(os.environ.get("VERIF_SEED", "0") or 0)
@@ -74,6 +82,7 @@ def cmd_check(args):
 
 def cmd_replay(args):
     _assert_repo()
+    _cleanroom()
     from gemsim import runner
     rec = json.load(open(args.file))
     prop = rec["property"]
@@ -105,6 +114,7 @@ def cmd_replay(args):
 
 def cmd_one(args):
     _assert_repo()
+    _cleanroom()
     from gemsim import runner
     seed = args.seed if args.seed is not None else int(os.environ.get("VERIF_SEED", "0") or 0)
     rec = runner.generate_record(args.prop, seed, args.index)
